@@ -165,6 +165,34 @@ def build(graph, mi):
     return main_source(mi), mods, reference(graph, mi)
 
 
+DIRECTED = [
+    ("module-attributes-are-called-uniformly",
+     'import "tools";\nprint(tools.bump()); print(tools.bump()); print(tools.plain(4)); print(type(tools.make()) == tools.Counter);\n'
+     'print(tools.type(1)); tools.print("via the module\'s print"); print(tools.lenf());\ntools.hook = |x| x + 1; print(tools.hook(2));\n'
+     'try { tools.notcallable(); } catch e { print(type(e) == TypeError); }\ntry { tools.missing(); } catch e { print(type(e) == AttributeError); }\n'
+     'var f = tools.bump; print(f()); print(tools.count); tools.count = 40; print(tools.bump()); print(tools.nested.get("k")(5));\n',
+     {"tools": 'var count = 0;\n#[constructor(new)] class Counter { fn bump(self) { count = count + 1; return count; } }\nvar c = Counter.new();\n'
+               'var bump = c.bump; var make = Counter.new; var lenf = "abc".len; var notcallable = 5;\nfn plain(x) { return x * 2; }\nvar nested = {"k": |x| x + count};\n'},
+     ["1", "2", "8", "true", "<class Num>", "via the module's print", "3", "3", "true", "true", "3", "3", "41", "46"]),
+    ("exported-callables-keep-their-module",
+     'import "lib";\nvar base = "main base"; var tag = "main tag";\nvar fib = Fiber.new(lib.show); print(fib.call());\nvar stored = [lib.show, lib.Maker.new().label, lib.adder(5)];\n'
+     'for g in stored { print(g is_placeholder); }\n',
+     {"lib": 'var base = "lib base"; var tag = "lib tag";\nfn show() { return base; }\n#[constructor(new)] class Maker { fn label(self) { return tag; } }\n'
+             'fn adder(n) { return || base + String.from(n); }\n'},
+     []),
+    ("caught-circular-import-leaves-the-catcher-intact",
+     'import "ca";\nprint(ca.result);\n',
+     {"ca": 'import "cb";\nvar result = cb.probe();\n',
+      "cb": 'fn probe() {\n    var before = "b";\n    var failures = 0;\n    for i in 0..3 {\n        try { import "ca"; print("no error"); } catch e { var seen = type(e) == ImportError; if seen { failures = failures + 1; } }\n'
+            '        var after = "a" + String.from(i);\n        print(before + after);\n    }\n    return "failures " + String.from(failures);\n}\n'},
+     ["ba0", "ba1", "ba2", "failures 3"]),
+]
+DIRECTED[1] = (DIRECTED[1][0],
+               'import "lib";\nvar base = "main base"; var tag = "main tag";\nvar fib = Fiber.new(lib.show); print(fib.call());\n'
+               'var stored = [lib.show, lib.Maker.new().label, lib.adder(5)];\nfor g in stored { print(g()); }\nvar m = {"f": lib.show}; print(m.get("f")());\n',
+               DIRECTED[1][2], ["lib base", "lib base", "lib tag", "lib base5", "lib base"])
+
+
 def correspondence(ctx, model_ok=True):
     rng = ctx.rng.fork("c14")
     failures = []
@@ -215,6 +243,20 @@ def correspondence(ctx, model_ok=True):
                 ml = mod_lines(evs, g)
                 spans.append((len(mlines), len(ml), src, mods))
                 mlines.extend(ml)
+    dlines = [vlib.case_line("dir%d" % i, ["M:%s:%s" % (vlib.hx(n), vlib.hx(t)) for n, t in mods.items()] + ["S:" + vlib.hx(src)], steps=3000000)
+              for i, (_, src, mods, _) in enumerate(DIRECTED)]
+    for mode in ({}, {"gc": "always", "quarantine": 1}):
+        dl = [l.replace(" -- ", " " + " ".join("%s=%s" % kv for kv in mode.items()) + " -- ", 1) if mode else l for l in dlines]
+        dres = vlib.run_real(ctx.runner, dl)
+        for (name, src, mods, exp), r in zip(DIRECTED, dres):
+            st = (r.get("steps") or [{}])[-1] if isinstance(r, dict) else {}
+            c = progs.canon_step(st if st else r)
+            if c[0] != "ok" or list(c[2]) != exp:
+                failures.append({"what": "module scenario '%s' prints %s (%s %s), expected %s" % (name, list(c[2]) if len(c) > 2 else c, c[0], list(c[3])[:1] if len(c) > 3 else "", exp),
+                                 "program": src, "modules": mods, "expected_output": exp, "signature": "scenario " + name, "failing_input": True})
+        if not mode and model_ok:
+            sd = specdiff.diff_lines(ctx, dl, dres, broken, what="module scenario", payload_of=lambda i: {"program": DIRECTED[i][1], "modules": DIRECTED[i][2]})
+            failures += sd["failures"]
     sdn = 0
     if model_ok:
         sd = specdiff.diff_lines(ctx, first_lines, first_res, broken, what="program with modules",
@@ -291,4 +333,4 @@ def replay(ctx, payload):
     steps = ["M:%s:%s" % (vlib.hx(n), vlib.hx(s)) for n, s in payload.get("modules", {}).items()] + ["S:" + vlib.hx(payload["program"])]
     r = vlib.run_real(ctx.runner, [vlib.case_line("replay", steps, steps=3000000)])[0]
     c = progs.canon_step((r.get("steps") or [{}])[-1])
-    return c[0] == "ok" and list(c[2]) == payload.get("expected"), str(c)[:1500]
+    return c[0] == "ok" and list(c[2]) == payload.get("expected_output", payload.get("expected")), str(c)[:1500]
